@@ -36,6 +36,8 @@ def run(drv, prog, inputs):
         if k == "const":
             return e["v"]
         l, r = ev(e["l"]), ev(e["r"])
+        if k == "div":
+            return l / r if not isinstance(l, int) else l // r
         return l + r if k == "add" else (l - r if k == "sub" else l * r)
 
     def cond(c):
